@@ -8,7 +8,7 @@ HARNESS = os.path.join(VERIF, "harness")
 GEN_TARGET = os.path.join(VERIF, ".target", "gen")
 OUT = os.path.join(HARNESS, "src", "generated")
 
-SHAPE_PROPS = {"C01", "C02", "C03", "C06", "C07", "C09", "C17"}
+SHAPE_PROPS = {"C01", "C02", "C03", "C04", "C06", "C07", "C09", "C17"}
 OWN = {"C08": "c08", "C12": "c12", "C18": "c18"}
 
 
